@@ -195,7 +195,13 @@ impl<'xml> Deserializer<'xml> {
             match self.next_event()? {
                 DeEvent::Start(_) => return Err(unexpected_start()),
                 DeEvent::End(_) => return Err(unexpected_end()),
-                DeEvent::Text(_) => continue,
+                // only white space may follow the root element
+                DeEvent::Text(t) => {
+                    if t.iter().all(u8::is_ascii_whitespace) {
+                        continue;
+                    }
+                    return Err(DeError::InvalidContent);
+                }
                 DeEvent::Eof => return Ok(()),
             }
         }
